@@ -1,2 +1,71 @@
-//! verif::feature — guarded hooks (cfg rustybuzz_verif).
+//! verif::feature — guarded hooks (cfg rustybuzz_verif) for property C14: the real `set_masks` on a real
+//! buffer, and the feature-mask allocation of a real plan (infos before compile, fields after).
 #![allow(unused_imports)]
+use alloc::vec::Vec;
+
+use crate::hb::buffer::{glyph_flag, hb_buffer_t, hb_glyph_info_t};
+use crate::hb::face::hb_font_t;
+use crate::hb::ot_map::hb_ot_map_t;
+use crate::hb::ot_shape::hb_ot_shape_planner_t;
+use crate::{Direction, Feature, Language, Script};
+
+pub const MAX_BITS: u32 = hb_ot_map_t::MAX_BITS;
+pub const MAX_VALUE: u32 = hb_ot_map_t::MAX_VALUE;
+pub const GLYPH_FLAG_DEFINED: u32 = glyph_flag::DEFINED;
+
+/// Runs `hb_buffer_t::set_masks` on a buffer holding the given (cluster, mask) glyphs; returns the masks.
+pub fn set_masks(infos: &[(u32, u32)], value: u32, mask: u32, start: u32, end: u32) -> Vec<u32> {
+    let mut b = hb_buffer_t::new();
+    for &(cluster, m) in infos {
+        let mut i = hb_glyph_info_t::default();
+        i.cluster = cluster;
+        i.mask = m;
+        b.info.push(i);
+    }
+    b.len = b.info.len();
+    b.set_masks(value, mask, start, end);
+    b.info[..b.len].iter().map(|i| i.mask).collect()
+}
+
+pub struct PlanDump {
+    pub simple: bool,
+    /// (tag, seq, max_value, flags, default_value, found) before `compile` (before sort/dedup)
+    pub infos: Vec<(u32, usize, u32, u32, u32, bool)>,
+    pub global_mask: u32,
+    /// (tag, shift, mask, one_mask) of the compiled map, in map order
+    pub features: Vec<(u32, u32, u32, u32)>,
+    /// what `setup_masks` asks for each non-global user feature: (mask, shift) = get_mask(tag)
+    pub user_masks: Vec<(u32, u32)>,
+}
+
+/// The steps of `hb_ot_shape_plan_t::new`, with the builder's feature list read before `compile`.
+pub fn plan_dump(
+    face: &hb_font_t,
+    direction: Direction,
+    script: Option<Script>,
+    language: Option<&Language>,
+    user_features: &[Feature],
+) -> PlanDump {
+    let mut planner = hb_ot_shape_planner_t::new(face, direction, script, language);
+    planner.collect_features(user_features);
+    let simple = planner.ot_map.is_simple;
+    let infos = planner
+        .ot_map
+        .verif_feature_infos()
+        .into_iter()
+        .map(|(t, s, m, f, d)| (t.0, s, m, f, d, planner.ot_map.verif_found(t, f)))
+        .collect();
+    let plan = planner.compile(user_features);
+    PlanDump {
+        simple,
+        infos,
+        global_mask: plan.ot_map.get_global_mask(),
+        features: plan
+            .ot_map
+            .verif_features()
+            .into_iter()
+            .map(|(t, s, m, o)| (t.0, s, m, o))
+            .collect(),
+        user_masks: user_features.iter().map(|f| plan.ot_map.get_mask(f.tag)).collect(),
+    }
+}
